@@ -126,6 +126,13 @@ func (self *Fork) isStrictVolatile() bool {
 }
 
 func (self *Fork) partialVdrKill() (*VDRKillReport, bool) {
+	// Like Node.vdrKill, refuse to VDR across a symlink.  The fork calls
+	// this directly as it makes progress, without going through the node.
+	if symlink, err := self.node.vdrCheckSymlink(); symlink != "" {
+		return nil, true
+	} else if err != nil {
+		return nil, false
+	}
 	self.storageLock.Lock()
 	defer self.storageLock.Unlock()
 	if state := self.getState(); state.IsFailed() {
